@@ -211,7 +211,7 @@ PROPS["C10"] = {
     "technique": "Lean 4: the fast-Fourier nearest-plane identity at every depth, proved on a generic model of ffldl/ffsampling over any field with involution (LDL* reconstruction, split/merge isometries, induction over the tree) + the same generic model instantiated with f64 and compared bit for bit with the real tree leaves and leaf centres + per-signature numerical evaluation of ||s||^2 = sigma^2 * sum((mu-z)/sigma_leaf)^2 from per-leaf traces of the real signer + the whole of sign (hash, target, fast-Fourier sampler with sampler_z at the leaves, floating-point norm test, round(ifft), compress, both retry loops) as an executable Lean model compared byte for byte with the real sign on the same generator byte stream (op sign_model)",
     "rule": "ops = tree_leaves: per key the 2n leaf values of the real LDL tree (hook keygen_info) against the f64 instance of the model's ffldl, bit for bit; ffs_targets: per key 2 (thorough 6) signatures, the 2n leaf centres mu the real ffsampling passed to the leaf sampler (trace) against the model's ffsampling driven with the traced leaf outputs z, bit for bit; sign_model: per key 2 (thorough 12) signatures, the whole of sign in the Lean model on the same generator byte stream, byte for byte; sign_leaves: signatures with an injected generator, 2 keys x 60 per variant (thorough 4 x 1500); per signature the exact integer ||(s1,s2)||^2 recomputed from the signature bytes and public key by the specification arithmetic is compared (rel 1e-6) with sigma^2 * sum over the 2n leaf samples of ((mu - z)/sigma_leaf)^2 from the trace; leaf widths in [sigma_min, sigma_max]; norm within the bound; sign_stats: per key 3 x 160 (thorough 40 x 400) signatures, mean of sum((mu-z)/sigma_leaf)^2/(2n) within six standard errors of 1 (second moment of every leaf sample); the leaf sampler's own ops (C09's quick generator without the two inputs of finding F7) against the model and the specification's blocks; distinct by op line",
     "exhaustive": {"quick": (False, ""), "thorough": (False, "")},
-    "level_text": "Machine-checked over any field with involution (exact arithmetic), for every depth and EVERY sequence of leaf outputs: on the tree ffldl builds from a Hermitian Gram matrix with non-zero pivots, ffsampling's output z satisfies (t-z) G (t-z)* = sum over leaves of |mu_leaf - z_leaf|^2 * d_leaf (theorem fast_fourier_nearest_plane_identity), so with leaves normalised to sigma/sqrt(d) the squared norm is sigma^2 times the sum of squared normalised deviations whatever the leaf sampler returns - this is the algebra that makes the output spherical when the leaves are sampled correctly. The generic model's f64 instance reproduces the real tree and the real leaf centres bit for bit on every traced key and signature (so the proved recursion is the recursion the code runs). The identity is also evaluated numerically on every traced signature (a wrong sign, a skipped normalisation or a wrong leaf breaks it). The leaf sampler is tied as in C09 (a deviation there is a deviation of the signature law) and an aggregate second-moment test over hundreds of signatures per key detects variance errors of about 1%. NOT decided: statistical closeness of the law to the spherical discrete Gaussian (Klein/GPV), i.e. the leakage statement itself.",
+    "level_text": "Machine-checked over any field with involution (exact arithmetic), for every depth and EVERY sequence of leaf outputs: on the tree ffldl builds from a Hermitian Gram matrix with non-zero pivots, ffsampling's output z satisfies (t-z) G (t-z)* = sum over leaves of |mu_leaf - z_leaf|^2 * d_leaf (theorem fast_fourier_nearest_plane_identity), so with leaves normalised to sigma/sqrt(d) the squared norm is sigma^2 times the sum of squared normalised deviations whatever the leaf sampler returns - this is the algebra that makes the output spherical when the leaves are sampled correctly. The generic model's f64 instance reproduces the real tree and the real leaf centres bit for bit on every traced key and signature (so the proved recursion is the recursion the code runs), and the sampler-driven recursion of the signing model - byte-identical with the real sign - is that same generic ffsampling applied to the integers the leaf sampler returned (signing_recursion_is_the_generic_one). The identity is also evaluated numerically on every traced signature (a wrong sign, a skipped normalisation or a wrong leaf breaks it). The leaf sampler is tied as in C09 (a deviation there is a deviation of the signature law) and an aggregate second-moment test over hundreds of signatures per key detects variance errors of about 1%. NOT decided: statistical closeness of the law to the spherical discrete Gaussian (Klein/GPV), i.e. the leakage statement itself.",
     "level_note": "Trusted: Lean kernel + Mathlib field_simp/ring/StarRing; the theorem is about exact field arithmetic with hypotheses Hermitian + non-zero pivots (Good), the code runs f64 - the f64 instance is compared, not proved; floating-point evaluation of the identity (tolerance 1e-6, observed 1e-12); Lean's Float (IEEE binary64 via C) in the driver.",
     "trusted_base": TB_COMMON + ["f64 arithmetic in the trace evaluation", "Lean Float = IEEE binary64 (driver, f64 instance of the model)"],
     "assumptions": ["exact-field theorem: Gram matrix Hermitian with non-zero LDL pivots at every node (holds for a full-rank basis)"],
